@@ -1,5 +1,5 @@
 """the shape shared by most checks: proofs, then model-vs-implementation on generated cases"""
-import json, os, time
+import json, shutil, os, time
 import vcheck as V
 
 
@@ -50,7 +50,7 @@ APP_ASSUME = [
 
 
 def app_check(ctx, prop, props_v, theorems, codes, pred, extra_assume, known_classes=(), histories=None, blocks=None,
-              profile="corpus", nontrivial_rule="", extra_evals=None):
+              profile="corpus", nontrivial_rule="", extra_evals=None, effect_codes=()):
     """proof stage + model-vs-RigoApp on generated histories, restricted to the projection `codes`,
     + the property predicate `pred` on the implementation's and on the model's observations"""
     assume = APP_ASSUME + list(extra_assume)
@@ -69,7 +69,28 @@ def app_check(ctx, prop, props_v, theorems, codes, pred, extra_assume, known_cla
     evals = "bad=check_props [%s] %s" % (";".join(str(c) for c in codes), pred)
     if extra_evals:
         evals += "|" + extra_evals
+    # the EVM effect contract (EffectCheck.v) on every effect the node exhibited
+    evals += "|eff=check_effects_cases|neff=count_effects"
     files, stats, hist = [], [], {}
+    if getattr(ctx, "replay", None):
+        # --replay <file>: the recorded history is executed again on a fresh real node built from
+        # /repo's current tree, and model and predicate are evaluated on what it answers now
+        obj = json.load(open(ctx.replay))
+        if "history" not in obj:
+            print("replay file carries no application history; re-run the check with VERIF_SEED=%s --tier %s" % (obj.get("seed"), obj.get("tier")))
+            return None
+        hp = os.path.join(ctx.scratch, "replay_history.json")
+        json.dump([obj["history"]], open(hp, "w"))
+        f = os.path.join(ctx.scratch, "cases_app_0.v")
+        st = os.path.join(ctx.scratch, "astats_0.json")
+        rc, o = V.run_harness(ctx, binp, "app-replay", ["-json", hp, "-out", f, "-scratch", ctx.scratch, "-stats", st, "-evals", evals])
+        if rc != 0:
+            V.violation(ctx, "harness-run", {"kind": "harness-failed", "detail": o[-3000:]}, nofail=True)
+            return None
+        shutil.copy(hp, f + ".json")
+        files.append(f)
+        stats.append(json.load(open(st)))
+        shards = 0
     for s in range(shards):
         f = os.path.join(ctx.scratch, "cases_app_%d.v" % s)
         st = os.path.join(ctx.scratch, "astats_%d.json" % s)
@@ -82,8 +103,27 @@ def app_check(ctx, prop, props_v, theorems, codes, pred, extra_assume, known_cla
             return None
         files.append(f)
         stats.append(json.load(open(st)))
-    res = V.run_case_files(ctx, files, names=("bad",) + tuple(e.split("=")[0] for e in (extra_evals or "").split("|") if "=" in e))
+    res = V.run_case_files(ctx, files, names=("bad", "eff", "neff") + tuple(e.split("=")[0] for e in (extra_evals or "").split("|") if "=" in e))
     found_input = False
+    EFFECT_TEXT = {20: "an EVM-path transaction succeeded but the node exhibited no effect", 21: "the accounts touched by an EVM execution did not lose exactly gas used x price in total (hypothesis evm_effect_fee_ok of the C02/C16 EVM-path theorems)",
+                   22: "the sender's nonce after an EVM execution is not nonce + 1 (evm_effect_nonce_ok, C04)", 23: "an EVM execution lowered the nonce of a sending account (evm_effect_mono_at, C04)"}
+    ctx.effects_checked = 0
+    for f, r in res.items():
+        if r["rc"] != 0 or r.get("eff") is None:
+            continue
+        ctx.effects_checked += int(r.get("neff") or 0)
+        if not r["eff"]:
+            continue
+        hs = json.load(open(f + ".json"))
+        for (idx, bad) in r["eff"]:
+            mine = [(pos, c) for (pos, c) in bad if c in effect_codes]
+            if not mine:
+                continue
+            h = hs[idx]
+            found_input = True
+            V.violation(ctx, "evm-effect-breaks-contract-%d" % mine[0][1],
+                        {"kind": "observed-evm-effect-violates-the-effect-contract", "what": EFFECT_TEXT.get(mine[0][1]), "positions_and_codes": mine,
+                         "theorem_hypothesis": "EffectCheck.effect_contract", "history": {k: h[k] for k in ("Seed", "Genesis", "Blocks", "WatchA", "WatchH", "StrTab", "OptTab")}})
     later = []   # divergences without a falsified predicate: reported only if no failing input turns up
     for f, r in res.items():
         if r["rc"] != 0 or r.get("bad") is None:
@@ -114,6 +154,9 @@ def app_check(ctx, prop, props_v, theorems, codes, pred, extra_assume, known_cla
     if not found_input:
         for key, obj in later:
             V.violation(ctx, key, obj, nofail=True)
+    if getattr(ctx, "replay", None):
+        print("replayed %s on the current tree: %s" % (ctx.replay, "reproduced" if ctx.violations or ctx.known else "not reproduced (predicate holds, model and node agree)"))
+        V.finish(ctx)
     ctx.app_results = res
     proof_failure_verdict(ctx, found_input)
     agg = {}
@@ -135,6 +178,7 @@ def app_check(ctx, prop, props_v, theorems, codes, pred, extra_assume, known_cla
         "evaluations": agg.get("Txs", 0) + agg.get("Blocks", 0),
         "distinct_nontrivial": agg.get("DistinctNontrivial", 0),
         "rule": "histories of %d blocks generated online against the real node from one PRNG (all native transaction types, ~40%% invalid: nonce/price/gas/funds/signature/chain/payload/authorisation; evidence, missed votes, governance); plus hand-written corpus histories; compared: %s; predicate %s evaluated on the implementation's and on the model's observations. %s" % (nb, codes, pred, nontrivial_rule or "non-trivial = the history contains at least one block with validator updates"),
+        "evm_effects_checked_against_contract": getattr(ctx, "effects_checked", 0),
         "blocks": agg.get("Blocks", 0), "transactions": agg.get("Txs", 0), "succeeded": agg.get("Succeeded", 0), "failed": agg.get("Failed", 0),
         "distribution": agg.get("ByNote", {}), "corpus": agg.get("Corpus", []), "generator_errors": agg.get("Errors", []),
         "samples": [sample[i:i + 1500]],
